@@ -108,6 +108,80 @@ theorem go_merc_inv_eq_js' (s : Model.SR ℝ) (o : Js.Obj ℝ) (h : Same s o)
   rw [hc, bind_ok_eq]
   exact go_merc_inv_eq_js s' c _ x y z ha hx hy hlo hkk hee hsp
 
+/-! ## Krovak -/
+
+theorem NZ_some {v : ℝ} (h : NZ (some v)) : v ≠ 0 := fun hv => h (by rw [hv])
+
+/-- the regenerated `Krovak` body against krovak.js `init`, on the three parameters they read -/
+theorem krovak_init_agree (o : Js.Obj ℝ) (K0 Lat0 Long0 : Option ℝ)
+    (h1 : o.k0 = K0) (h2 : o.lat0 = Lat0) (h3 : o.long0 = Long0) (n1 : NZ K0) (n2 : NZ Lat0) (n3 : NZ Long0) :
+    ∃ Ad Alfa K N Ro0 A E Es k0 lat0 long0,
+      Gen.Go.Krovak_init K0 Lat0 Long0 = .ok (Ad, Alfa, K, N, Ro0, A, E, Es, k0, lat0, long0) ∧
+      (Js.krovakInit o).alfa = Alfa ∧ (Js.krovakInit o).kk = K ∧ (Js.krovakInit o).n = N ∧
+      (Js.krovakInit o).ro0 = Ro0 ∧ (Js.krovakInit o).ad = Ad ∧ (Js.krovakInit o).a = some A ∧
+      (Js.krovakInit o).e = E ∧ (Js.krovakInit o).es = Es ∧ (Js.krovakInit o).k0 = k0 ∧
+      (Js.krovakInit o).lat0 = lat0 ∧ (Js.krovakInit o).long0 = long0 ∧ (Js.krovakInit o).s0 = Model.S0 ∧
+      (Js.krovakInit o).czech = o.czech := by
+  unfold Gen.Go.Krovak_init Js.krovakInit Model.S0
+  cases K0 with
+  | none =>
+    cases Lat0 with
+    | none =>
+      cases Long0 with
+      | none => simp [h1, h2, h3, Gen.Go.optNaN, Gen.Go.optNum, truthyO_none, Js.num, Js.aO]; rnum; norm_num
+      | some l => simp [h1, h2, h3, Gen.Go.optNaN, Gen.Go.optNum, truthyO_none, truthyO_some, NZ_some n3, r_isNaN, Js.num, Js.aO]; rnum; norm_num
+    | some f =>
+      cases Long0 with
+      | none => simp [h1, h2, h3, Gen.Go.optNaN, Gen.Go.optNum, truthyO_none, truthyO_some, NZ_some n2, r_isNaN, Js.num, Js.aO]; rnum; norm_num
+      | some l => simp [h1, h2, h3, Gen.Go.optNaN, Gen.Go.optNum, truthyO_none, truthyO_some, NZ_some n2, NZ_some n3, r_isNaN, Js.num, Js.aO]; rnum; norm_num
+  | some k =>
+    cases Lat0 with
+    | none =>
+      cases Long0 with
+      | none => simp [h1, h2, h3, Gen.Go.optNaN, Gen.Go.optNum, truthyO_none, truthyO_some, NZ_some n1, r_isNaN, Js.num, Js.aO]; rnum; norm_num
+      | some l => simp [h1, h2, h3, Gen.Go.optNaN, Gen.Go.optNum, truthyO_none, truthyO_some, NZ_some n1, NZ_some n3, r_isNaN, Js.num, Js.aO]; rnum; norm_num
+    | some f =>
+      cases Long0 with
+      | none => simp [h1, h2, h3, Gen.Go.optNaN, Gen.Go.optNum, truthyO_none, truthyO_some, NZ_some n1, NZ_some n2, r_isNaN, Js.num, Js.aO]; rnum; norm_num
+      | some l => simp [h1, h2, h3, Gen.Go.optNaN, Gen.Go.optNum, truthyO_none, truthyO_some, NZ_some n1, NZ_some n2, NZ_some n3, r_isNaN, Js.num, Js.aO]; rnum; norm_num
+
+/-- **`Krovak` constructor = krovak.js `init`** (`lat_0`, `lon_0`, `k_0` absent or non-zero): same
+defaults, same ellipsoid (Bessel, written into the object by both), same five captured constants -/
+theorem go_init_krovak_eq_js (s : Model.SR ℝ) (o : Js.Obj ℝ) (h : Same s o)
+    (n1 : NZ s.k0) (n2 : NZ s.lat0) (n3 : NZ s.long0) :
+    ∃ s' c, Model.krovakInit s = .ok (s', c) ∧
+      Js.num (Js.krovakInit o).long0 = Model.gnum s'.long0 ∧ (Js.krovakInit o).e = s'.e ∧
+      (Js.krovakInit o).czech = s'.czech ∧ (Js.krovakInit o).alfa = c.alfa ∧ (Js.krovakInit o).kk = c.kk ∧
+      (Js.krovakInit o).n = c.n ∧ (Js.krovakInit o).ro0 = c.ro0 ∧ (Js.krovakInit o).ad = c.ad ∧
+      (Js.krovakInit o).s0 = Model.S0 ∧ (Js.krovakInit o).a = s'.a ∧ (Js.krovakInit o).es = s'.es ∧
+      (Js.krovakInit o).k0 = s'.k0 ∧ (Js.krovakInit o).lat0 = s'.lat0 := by
+  obtain ⟨Ad, Alfa, K, N, Ro0, A, E, Es, k0, lat0, long0, hgo, j1, j2, j3, j4, j5, j6, j7, j8, j9, j10, j11, j12, j13⟩ :=
+    krovak_init_agree o s.k0 s.lat0 s.long0 h.k0 h.lat0 h.long0 n1 n2 n3
+  have hm : Model.krovakInit s = .ok ({ s with a := some A, e := E, es := Es, k0 := k0, lat0 := lat0, long0 := long0 },
+      { (Model.Consts.nanC : Model.Consts ℝ) with alfa := Alfa, kk := K, n := N, ro0 := Ro0, ad := Ad }) := by
+    unfold Model.krovakInit; rw [hgo]
+  refine ⟨_, _, hm, ?_, j7, ?_, j1, j2, j3, j4, j5, j12, j6, j8, j9, j10⟩
+  · rw [j11]; rfl
+  · rw [j13, h.czech]
+
+/-- Krovak, constructor + forward closure, no hypothesis on constants -/
+theorem go_krovak_fwd_eq_js' (s : Model.SR ℝ) (o : Js.Obj ℝ) (h : Same s o)
+    (n1 : NZ s.k0) (n2 : NZ s.lat0) (n3 : NZ s.long0) (lon lat : ℝ) (z : Option ℝ) :
+    okOf (Model.krovakInit s >>= fun sc => Model.krovakFwd sc.1 sc.2 lon lat) =
+      xyOf (Js.krovakForward (Js.krovakInit o) ⟨lon, lat, z⟩) := by
+  obtain ⟨s', c, hc, hl, he, hcz, hal, hkk, hn, hro, had, hs0, -, -, -, -⟩ := go_init_krovak_eq_js s o h n1 n2 n3
+  rw [hc, bind_ok_eq]
+  exact go_krovak_fwd_eq_js s' c _ lon lat z hl he hcz hal hkk hn hro had hs0
+
+/-- Krovak, constructor + inverse closure -/
+theorem go_krovak_inv_eq_js' (s : Model.SR ℝ) (o : Js.Obj ℝ) (h : Same s o)
+    (n1 : NZ s.k0) (n2 : NZ s.lat0) (n3 : NZ s.long0) (x y : ℝ) (z : Option ℝ) :
+    okOf (Model.krovakInit s >>= fun sc => Model.krovakInv sc.1 sc.2 x y) =
+      xyOf (Js.krovakInverse (Js.krovakInit o) ⟨x, y, z⟩) := by
+  obtain ⟨s', c, hc, hl, he, hcz, hal, hkk, hn, hro, had, hs0, -, -, -, -⟩ := go_init_krovak_eq_js s o h n1 n2 n3
+  rw [hc, bind_ok_eq]
+  exact go_krovak_inv_eq_js s' c _ x y z hl he hcz hal hkk hn hro had hs0
+
 /-! ## the known finding "lcc at the pole", proved on the regenerated closure -/
 
 /-- exactly at the pole the port's Lambert conformal conic forward answers what it answers 2e-10 rad
